@@ -94,6 +94,12 @@ def instances(tier, seed):
                     add(spec=fam.with_horizon(base, h), guesses=gset, when=when,
                         cfg=Cfg(method, N=N, M=M, intg=intg or 'rk', grid=g, degree=degree, scheme=scheme))
             n += 1
+    # SingleShooting: a propagated state that is affine in some decision variables with coefficients depending on others
+    # (CasADi's Opti then complains about free variables instead of an "arbitrary expression")
+    ss = Spec(nx=2, nu=1, ode=[nl1(Vg('vc')) * X(1) * Fr(7, 4), nl1(t * t * Fr(1, 2))], vars=[Sym('vc', 'control')])
+    ss.objective = [at_tf(X(0) * X(0)) + integral(U(0) * U(0))]
+    for when in ('before', 'after'):
+        add(spec=fam.with_horizon(ss, H[1]), guesses=[(X(0), t * 2 + 1), (X(1), Fr(-1, 4)), (U(0), 3 - t)], when=when, cfg=Cfg('SS', N=2, M=1, intg='rk', grid=fam.G_UNI))
     # several algebraic variables, a vector-valued one followed by a scalar one (row ranges inside the stacked algebraic vector)
     for N, M, degree in ((2, 2, 3), (3, 1, 2)):
         sz = Spec(nx=1, nu=1, nz=3, zshape=[2, 1], ode=[Z(0) + Z(2) * U(0) + t],
